@@ -8,6 +8,7 @@ import Driver.C09Call2
 import Driver.C09Stage
 import Driver.C09Pipe
 import Driver.C09File
+import Driver.C09Text
 
 /-! Line-protocol handler for property C09 (formatter core). -/
 namespace Driver.C09
@@ -185,6 +186,6 @@ def handle (op : String) (args : List String) : Option String :=
   | "normcall", [c] => do
     let c ← decCall c
     pure (encCall (Martian.FormatCall.normCall c))
-  | op, args => Driver.C09.handleDecl op args <|> Driver.C09.handleRes op args <|> Driver.C09.handleCall2 op args <|> Driver.C09.handleStage op args <|> Driver.C09.handlePipe op args <|> Driver.C09.handleFile op args
+  | op, args => Driver.C09.handleDecl op args <|> Driver.C09.handleRes op args <|> Driver.C09.handleCall2 op args <|> Driver.C09.handleStage op args <|> Driver.C09.handlePipe op args <|> Driver.C09.handleFile op args <|> Driver.C09.handleText decode op args
 
 end Driver.C09
